@@ -888,14 +888,18 @@ func c09(c *Ctx) {
 		recv, _ := methodCall(info, call)
 		return isField(info, recv, fSspExp)
 	}) {
+		dominatedUpExempt = flushMarkerCall
 		ok, why := ix.DominatedUp(s.F, s.N, sampledEdge, 0)
+		dominatedUpExempt = nil
 		c.Check(ok, "R6", "sdk/trace|"+s.F.Name+"|ExportSpans only for sampled spans", ix.at(s), "export dominated by IsSampled()", "an unsampled (record-only) span reaches the exporter: "+why)
 	}
 	for _, s := range ix.FindNodes(func(f *FuncInfo, n ast.Node) bool {
 		st, ok := n.(*ast.SendStmt)
 		return ok && isField(info, st.Chan, fQueue)
 	}) {
+		dominatedUpExempt = flushMarkerCall
 		ok, why := ix.DominatedUp(s.F, s.N, sampledEdge, 0)
+		dominatedUpExempt = nil
 		c.Check(ok, "R6", "sdk/trace|"+s.F.Name+"|enqueue only sampled spans", ix.at(s), "send dominated by IsSampled()", "an unsampled span can be enqueued: "+why)
 	}
 
